@@ -84,7 +84,9 @@ def longest_match_bounded(seed):
     spaces = [('a-', 9), ("a`'", 6), ('a-~&', 5), (['a', '\\,', '\\%', '\\&',
                                                     '-'], 4),
               # a double backslash next to blanks and line breaks
-              (['a', '\\\\', ' ', '\n'], 5)]
+              (['a', '\\\\', ' ', '\n'], 5),
+              # a special sequence in a line, blanks after the last line break
+              (['a', '~', ' ', '\n'], 6)]
     n, fails = 0, []
     for alpha, mx in spaces:
         for ln in range(0, mx + 1):
@@ -92,7 +94,12 @@ def longest_match_bounded(seed):
                 src = ''.join(t)
                 n += 1
                 want = ref(src)
-                if any(l and not l.strip() for l in want[0].split('\n')):
+                def bare(line):
+                    for k in keys:
+                        line = line.replace(k, '')
+                    return line
+                if any(l.strip() and not bare(l).strip()
+                       for l in src.split('\n')):
                     # a special sequence on an otherwise blank line: that
                     # case belongs to C05, the property excludes it
                     continue
@@ -107,8 +114,9 @@ def longest_match_bounded(seed):
     return {'name': 'longest-match-on-short-inputs', 'bounded': True,
             'bound': 'all strings over {a,-} up to length 9, {a,`,\'} up '
                      'to 6, {a,-,~,&} up to 5, {a,\\,,\\%,\\&,-} up to 4, '
-                     '{a,\\\\,blank,newline} up to 5 pieces (inputs with a '
-                     'white-space-only output line are skipped: C05)',
+                     '{a,\\\\,blank,newline} up to 5, {a,~,blank,newline} up to 6 '
+                     'pieces (inputs with a special sequence on an otherwise '
+                     'blank line are skipped: C05)',
             'evaluations': n, 'failures': fails}
 
 
